@@ -342,8 +342,10 @@ def is_convex(mesh):
     if not mesh.is_watertight or mesh.body_count != 1:
         return False
 
-    # don't consider zero- area faces
-    nonzero = mesh.area_faces > tol.zero
+    # don't consider zero- area faces: on a very small mesh every face
+    # is small so the cutoff is relative to the largest face
+    area = mesh.area_faces
+    nonzero = area > tol.zero * min(1.0, area.max())
     # adjacencies with two nonzero faces
     adj_ok = nonzero[mesh.face_adjacency].all(axis=1)
 
